@@ -14,10 +14,10 @@ EXTENDS Api
 
 Trace == ndJsonDeserialize(IOEnv.VERIF_TRACE)
 
-VARIABLES l, cur, ndev, deep, rej
-traceVars == <<l, cur, ndev, deep, rej, used, cfg, ncalls>>
+VARIABLES l, cur, ndev, deep, rej, objin
+traceVars == <<l, cur, ndev, deep, rej, objin, used, cfg, ncalls>>
 
-TraceInit == TLCSet(1, <<>>) /\ ApiInit /\ l = 1 /\ cur = [vals |-> <<>>, prop |-> ""] /\ ndev = 0 /\ deep = <<>> /\ rej = <<>>
+TraceInit == TLCSet(1, <<>>) /\ ApiInit /\ l = 1 /\ cur = [vals |-> <<>>, prop |-> ""] /\ ndev = 0 /\ deep = <<>> /\ rej = <<>> /\ objin = <<>>
 
 Line == Trace[l]
 IsEvent(e) == l <= Len(Trace) /\ Line.ev = e
@@ -30,7 +30,7 @@ DeepKey(ty, pattern) == ty \o "/" \o pattern
 DeepTrack(ty, pattern) ==
   IF DeepKey(ty, pattern) \in DOMAIN deep THEN deep[DeepKey(ty, pattern)] ELSE [maxok |-> 0, minrej |-> -1]
 
-CallEvents == {"Size", "Encode", "Decode", "Deep", "Reject", "Legacy", "Allocs", "Par"}
+CallEvents == {"Size", "Encode", "Decode", "Deep", "Reject", "Legacy", "Allocs", "Par", "Walk", "Recheck"}
 
 \* rejected calls seen so far in the whole trace: (type, entry, argument kind) -> outcome
 RejKey == Line.ty \o "/" \o Line.entry \o "/" \o Line.arg
@@ -51,6 +51,8 @@ Judge ==
                                            THEN FailRoundTrip(Line.ty, cur.vals[Line.orig + 1], Line.in, Line.obs)
                                            ELSE {})])
     [] Line.ev = "Deep" -> JDeep(Line, DeepTrack(Line.ty, Line.pattern))
+    [] Line.ev = "Walk" -> JWalk(Line, objin)
+    [] Line.ev = "Recheck" -> JRecheck(Line)
     [] Line.ev = "Par" -> JPar(Line)
     [] Line.ev = "Legacy" -> JLegacy(Line)
     [] Line.ev = "Allocs" -> JAllocs(Line)
@@ -88,11 +90,14 @@ TraceScenario ==
   /\ cur' = [vals |-> Line.vals, prop |-> Line.prop]
   /\ l' = l + 1
   /\ deep' = <<>>      \* thresholds are tracked per scenario
+  /\ objin' = <<>>
   /\ UNCHANGED <<ndev, rej, used, cfg, ncalls>>
 
 \* a call whose observed outcome the specification allows
 TraceCall ==
   /\ l <= Len(Trace) /\ Line.ev \in CallEvents
+  /\ objin' = IF Line.ev = "Decode" /\ Line.obs.out = "ok" /\ "thr" \notin DOMAIN Line /\ cur.prop \in {"C06", "C14"}
+              THEN (ToString(Line.step) :> [ty |-> Line.ty, in |-> Line.in]) @@ objin ELSE objin
   /\ rej' = IF Line.ev = "Reject" /\ Line.obs.out # "crash" THEN (RejKey :> RejSig(Line.obs)) @@ rej ELSE rej
   /\ deep' = IF Line.ev # "Deep" THEN deep
              ELSE LET t == DeepTrack(Line.ty, Line.pattern)
@@ -105,7 +110,7 @@ TraceCall ==
      /\ IF v = {} THEN ndev' = ndev ELSE Report(v) /\ ndev' = ndev + 1
      /\ Count(j.cls)
      /\ IF Line.ev = "Legacy" THEN LegacyCall(Line.call)
-        ELSE IF Line.ev = "Par" THEN UNCHANGED apiVars
+        ELSE IF Line.ev \in {"Par", "Walk", "Recheck"} THEN UNCHANGED apiVars
         ELSE Call(Line.ty)
   /\ l' = l + 1
   /\ UNCHANGED cur
@@ -114,7 +119,7 @@ TraceCall ==
 TraceOther ==
   /\ l <= Len(Trace) /\ Line.ev \notin CallEvents \cup {"Scenario"}
   /\ l' = l + 1
-  /\ UNCHANGED <<cur, ndev, deep, rej, used, cfg, ncalls>>
+  /\ UNCHANGED <<cur, ndev, deep, rej, objin, used, cfg, ncalls>>
 
 TraceNext == TraceScenario \/ TraceCall \/ TraceOther
 
